@@ -326,6 +326,7 @@ def analyse(info, prims):
     xs = [(i, r, mod[i] if i < len(mod) else "<missing>") for i, r in enumerate(req) if r.startswith("x ")]
     res["modules"] = sum(1 for r in req if r.startswith("xmod"))
     res["modules_meeting_theorem_hypotheses"] = sum(1 for r, m in zip(req, mod) if r.startswith("xmod") and "wf=true" in m)
+    res["modules_passing_body_rules"] = sum(1 for r, m in zip(req, mod) if r.startswith("xmod") and "chk=true" in m)
     seen = set()
     for (i, r, m) in xs:
         op = r.split(" ")[1]
